@@ -603,6 +603,7 @@ func Run(cfg Config, tapes *Tapes, main func()) (*Sim, *Outcome) {
 	out := &Outcome{Kind: "ok"}
 	var idle time.Duration
 	quantum := time.Millisecond
+	graced := false
 	for {
 		synctest.Wait()
 		if p := s.panicInfo.Load(); p != nil {
@@ -653,6 +654,19 @@ func Run(cfg Config, tapes *Tapes, main func()) (*Sim, *Outcome) {
 				elig = append(elig, t)
 			}
 		}
+		if len(elig) == 0 && len(idleElig) > 0 && !graced && !cfg.CoRelease {
+			// Before "everything has come to rest" is announced to a task waiting for exactly that: code under
+			// test that is blocked on a timer of its own (a coalescing delay, a tick) is not parked anywhere the
+			// controller can see - let a little simulated time pass once, so that it can fire and be scheduled.
+			graced = true
+			tm := time.NewTimer(quiesceGrace)
+			select {
+			case <-s.wake:
+				tm.Stop()
+			case <-tm.C:
+			}
+			continue
+		}
 		if len(elig) == 0 {
 			elig = idleElig
 		}
@@ -685,6 +699,9 @@ func Run(cfg Config, tapes *Tapes, main func()) (*Sim, *Outcome) {
 			continue
 		}
 		idle, quantum = 0, time.Millisecond
+		if len(elig) > 0 && !elig[0].idleOnly {
+			graced = false
+		}
 		if cfg.CoRelease {
 			// a tape-chosen non-empty subset runs concurrently this round
 			var set []*Task
@@ -741,6 +758,9 @@ func Run(cfg Config, tapes *Tapes, main func()) (*Sim, *Outcome) {
 	s.stopping.Store(true)
 	return s, out
 }
+
+// quiesceGrace is the simulated time allowed to pass before a task waiting for quiescence is told so.
+const quiesceGrace = 5 * time.Millisecond
 
 // HandOff is called by a task that has just released a lock other tasks are waiting for. In a
 // quarter of the cases (tape "hof") the releasing task is parked at its next point and a waiter for a
